@@ -490,7 +490,7 @@ pub fn spec() -> PropSpec {
         subs: vec![Box::new(Sub {
             name: "schedules",
             cases_quick: 64,
-            cases_thorough: 1200,
+            cases_thorough: 150,
             max_shrink_iters: 30,
             strategy,
             run,
